@@ -220,6 +220,22 @@ impl<K: Hash + PartialEq + Eq + core::fmt::Debug> SliceCache<K> {
         removed
     }
 
+    #[cfg(bitcoin_slices_verif)]
+    /// Verification hook (read-only): the write position, the full flag and the stored ranges
+    /// `(begin, end)` from the oldest to the newest entry.
+    pub fn verif_layout(&self) -> (usize, bool, alloc::vec::Vec<(usize, usize)>) {
+        let ranges = self
+            .insertions
+            .iter()
+            .rev()
+            .map(|k| {
+                let r = self.indexes.get(k).expect("if in insertion, must be in indexes");
+                (r.begin(), r.end())
+            })
+            .collect();
+        (self.free_pointer, self.full, ranges)
+    }
+
     #[cfg(feature = "prometheus")]
     /// Register the inner metric for hit/cache in the prometheus registry
     pub fn register_metric(&self, r: &prometheus::Registry) -> Result<(), prometheus::Error> {
